@@ -145,12 +145,25 @@ def make_source(data: bytes, kind="bytesio"):
         f.write(data)
         f.flush()
         f.seek(0)
+        _OPEN.append(f)
         return f
     if kind.startswith("pipe:"):
         return pipe_stream(data, int(kind.split(":")[1]))
     if kind == "tracking":
         return TrackingStream(data)
     raise ValueError(kind)
+
+
+_OPEN = []
+
+
+def close_sources():
+    """Close the real files handed out by make_source (called before the next case)."""
+    while _OPEN:
+        try:
+            _OPEN.pop().close()
+        except Exception:  # noqa
+            pass
 
 
 class ScriptedSocket(socket.socket):
@@ -296,7 +309,23 @@ def mk_reader(stream, opts, handler=None):
         kw["labelmsm"] = opts["labelmsm"]
     if handler is not None:
         kw["errorhandler"] = handler
-    return pyubx2.UBXReader(stream, **kw)
+    rd = pyubx2.UBXReader(stream, **kw)
+    # a second, differently configured reader over another stream stays alive while
+    # this one is used: readers are independent objects
+    try:
+        rival = pyubx2.UBXReader(io.BytesIO(b"\xb5\x62\x05\x01\x02\x00\x06\x01\x0f\x38"),
+                                 msgmode=(kw["msgmode"] + 1) % 3, validate=0 if kw["validate"] else 1,
+                                 protfilter=(7 ^ kw["protfilter"]) or 7, quitonerror=(kw["quitonerror"] + 1) % 3,
+                                 parsebitfield=not kw["parsebitfield"], parsing=not kw["parsing"],
+                                 errorhandler=_RIVALS.append)
+        _RIVALS.append(rival)
+        del _RIVALS[:-4]
+    except Exception:  # noqa - the rival is scenery; its construction is not under test here
+        pass
+    return rd
+
+
+_RIVALS = []
 
 
 def read_all(stream, opts, handler=None, resume=False, limit=None):
